@@ -190,13 +190,14 @@ func (l *localFS) Put(ctx context.Context, key string, source io.Reader, exclusi
 					zap.Error(err),
 				)
 			}
-			err = target.Close()
-			if err != nil {
+			if errClose := target.Close(); errClose != nil {
 				l.l.Error("write error, retrying",
 					zap.String("key", key),
-					zap.Error(err),
+					zap.Error(errClose),
 				)
-
+				if err == nil {
+					err = errClose
+				}
 			}
 
 			return err
@@ -220,12 +221,14 @@ func (l *localFS) Put(ctx context.Context, key string, source io.Reader, exclusi
 				)
 			}
 
-			err = target.Close()
-			if err != nil {
+			if errClose := target.Close(); errClose != nil {
 				l.l.Error("write error, retrying",
 					zap.String("key", key),
-					zap.Error(err),
+					zap.Error(errClose),
 				)
+				if err == nil {
+					err = errClose
+				}
 			}
 
 			return err
